@@ -21,6 +21,7 @@ type CFConfig struct {
 	Faults      bool // enumerate a raise at every dynamic slot position
 	KindsPerPos int  // error kinds tried per position (chosen by tape); 0 = all
 	Profile     func(t *tape.Tape) gen.Profile
+	Relayout    bool // sometimes spread argument lists over lines and use CRLF / lone-CR line ends
 }
 
 // Viol is one observed violation.
@@ -40,6 +41,7 @@ type Viol struct {
 // CFStats are the per-run counters that go to evidence.
 type CFStats struct {
 	Programs     int             `json:"programs"`
+	Relayouts    int             `json:"programs_in_a_spread_layout_with_lf_crlf_or_cr"`
 	ParseRejects int             `json:"parse_rejects"`
 	ModelUnsure  int             `json:"model_unsure"`
 	CleanSkipped int             `json:"clean_divergence_skipped"`
@@ -61,6 +63,7 @@ func newCFStats() *CFStats {
 
 func (s *CFStats) merge(o *CFStats) {
 	s.Programs += o.Programs
+	s.Relayouts += o.Relayouts
 	s.ParseRejects += o.ParseRejects
 	s.ModelUnsure += o.ModelUnsure
 	s.CleanSkipped += o.CleanSkipped
@@ -341,6 +344,19 @@ func CFRun(it *harness.Interp, cfg CFConfig, t *tape.Tape, seed, run uint64, st 
 	prof := cfg.Profile(t)
 	prog := gen.Generate(t, prof)
 	src := prog.Source()
+	if cfg.Relayout && !strings.Contains(src, "#{") && t.Chance(1, 6) {
+		// the same program in another layout: a line break after the commas of its lists (the
+		// grammar allows one there), and one of the three line terminators. What is evaluated,
+		// and in which order, must not follow the positions the lexer records.
+		src = strings.ReplaceAll(src, ", ", ",\n"+[]string{"", " ", "      "}[t.Intn(3)])
+		switch t.Intn(3) {
+		case 1:
+			src = strings.ReplaceAll(src, "\n", "\r\n")
+		case 2:
+			src = strings.ReplaceAll(src, "\n", "\r")
+		}
+		st.Relayouts++
+	}
 	st.Programs++
 	ast, err := harness.Parse(src)
 	if err != nil {
